@@ -8,13 +8,98 @@ def S(config, **kw):
 TECH_SWEEP = "exhaustive bounded enumeration of inputs on the real code vs reference model"
 
 PLAN = {
+    "C01": {
+        "quick": [S("hook-default")],
+        "thorough": [S("hook-default"), S("m3-none", tag="nosimd")],
+    },
+    "C02": {
+        "quick": [S("hook-default")],
+        "thorough": [S("hook-default"), S("m3-none", tag="nosimd")],
+    },
+    "C04": {
+        "quick": [S("hook-default"), S("m3-none", tag="tables")],
+        "thorough": [S("hook-default"), S("m3-none", tag="tables"), S("m4-embedded-min", tag="min")],
+    },
+    "C05": {
+        "quick": [S("hook-default"), S("m3-none", tag="tables")],
+        "thorough": [S("hook-default"), S("m3-none", tag="tables"), S("m4-embedded-min", tag="min")],
+    },
+    "C06": {
+        "quick": [S("hook-default")],
+        "thorough": [S("hook-default"), S("m3-none", tag="tables")],
+    },
+    "C08": {
+        "quick": [S("hook-default")],
+        "thorough": [S("hook-default"), S("m3-none", tag="nosimd")],
+    },
+    "C10": {
+        "quick": [S("hook-default")],
+        "thorough": [S("hook-default")],
+    },
+    "C13": {
+        "quick": [S("hook-default")],
+        "thorough": [S("hook-default"), S("m3-none", tag="tables")],
+    },
+    "C14": {
+        "quick": [S("hook-default"), S("m3-none", tag="tables")],
+        "thorough": [S("hook-default"), S("m3-none", tag="tables"), S("m4-embedded-min", tag="min")],
+    },
     "C09": {
         "quick": [S("hook-default")],
         "thorough": [S("hook-default"), S("m3-none", tag="nosimd")],
     },
 }
 
+def _lt(technique, text, ref, note, assumptions):
+    return {"technique": technique, "text": text, "design_ref": ref, "note": note, "assumptions": assumptions}
+
+REF_TRUST = "reference model (harness/src/refmodel: pinned Pearson and length tables, byte-at-a-time generator, full-sort quartiles, naive distances) is bound to the official algorithm by the known-answer self-test that runs before every check"
+
 LEVEL_TEXT = {
+    "C01": _lt(
+        "exhaustive bounded enumeration on the real generator vs reference model: complete 2^32 domains of both bucket mappings, complete one-step relation per salted triplet from injected states, all short inputs, all prefix lengths, all quartile compositions over boundary value alphabets",
+        "Model checking of a sequential library: the claim over all inputs is decomposed into finite components that are each enumerated completely on the real code (both bucket-mapping functions on all 2^32 arguments; the one-byte step relation from injected states; finalize on every composition of bucket classes over value alphabets that include counts >= 2^24, >= 2^31 and 2^32-1; the Q-ratio arithmetic on a boundary alphabet), plus every whole input up to a length bound and every prefix length of five streams, all under all 32 option settings, each compared with an independent reference.",
+        "DESIGN.md section 2, C01",
+        "Trusted: " + REF_TRUST + "; the state-injection hook (round-trip validated against really fed streams in the thorough tier). Not covered: an induction over arbitrary bucket vectors beyond the class/alphabet abstraction.",
+        ["reference model equals the official TLSH algorithm on all inputs (bound by KATs)", "a triplet's bucket index depends only on the three bytes it reads (checked on a filler alphabet)", "finalize depends on the bucket array only through order statistics and comparisons with them"]),
+    "C02": _lt(
+        "exhaustive bounded enumeration of hash pairs on every compiled distance backend vs naive reference distance",
+        "Every compiled body-distance backend (dispatch, pseudo-SIMD 32/64, SSE2, SSE4.1, AVX2) is driven directly on all pairs that deviate from 18 backgrounds in one byte (all 2^16 values, every position), in one straddling nibble window, in whole-body fills, and (thorough) in two adjacent bytes (all 2^32) at every structural boundary; header parts are swept over their complete 2^16 domains through the public API; the composition is checked on a product alphabet.",
+        "DESIGN.md section 2, C02",
+        "Trusted: naive reference distance; " + REF_TRUST + ". Not covered: all 2^512 x 2^512 body pairs (coverage is all deviations of <= 1 byte (quick) / <= 2 adjacent bytes (thorough) from 18 backgrounds).",
+        ["a bit-sliced kernel that is right on all <=2-byte deviations from varied backgrounds has no cross-lane defect"]),
+    "C04": _lt(
+        "exhaustive bounded enumeration of hash values and of one-deviation strings through every format/parse entry point vs reference hex codec",
+        "All hash values that deviate from 4 backgrounds in one byte (every position, all 256 values) plus all 2^16 values of every adjacent header byte pair are formatted by every formatter and parsed back by every entry point; every string within one deviation of 6 base strings that is accepted must re-format to its own canonical uppercase form.",
+        "DESIGN.md section 2, C04",
+        "Trusted: reference hex codec. Encoders/decoders are byte-local (per two digits), so one-byte deviations cover them per position; table variants are covered by the listed configurations and by C07.",
+        ["codec is byte-local (verified by reading; cross-byte effects are covered by header windows)"]),
+    "C05": _lt(
+        "deviation-bounded exhaustive enumeration of byte strings (0,1,2 deviations from well-formed bases, all lengths) through every parse entry point under catch_unwind vs reference parser returning the set of applicable errors",
+        "Every string with at most one deviation (any position, all 256 byte values incl. non-UTF-8) and at most two deviations (7-class alphabet; thorough: first deviation over all 256 values) from six well-formed bases, and every length 0..=2*LEN with several prefixes, is parsed in all three prefix modes through all entry points; acceptance, value and error kind are compared with the reference.",
+        "DESIGN.md section 2, C05",
+        "Trusted: reference parser. The oracle demands an error from the set that applies, never a particular precedence.",
+        []),
+    "C06": _lt(
+        "exhaustive bounded enumeration of byte arrays through binary conversion, all accessors and the hex layout",
+        "All arrays deviating from 4 backgrounds in one byte plus all 2^16 header windows: store/try_from round trips (array and slice), every accessor including quartile(i) for all i and the out-of-range panic, the hex layout, clear_checksum; every slice length 0..=2*SIZE.",
+        "DESIGN.md section 2, C06", "Trusted: field layout as stated in the property.", []),
+    "C08": _lt(
+        "exhaustive bounded enumeration of hash pairs checked against the metric laws (no expected values)",
+        "Reflexivity, zero-iff-equal, symmetry, boundedness, attained maximum, additivity of the length term and checksum clearing are checked on all one-byte-deviation pairs (all 2^16 values at every position of the whole hash) and on all ordered pairs of a 64/256-hash pool, every variant, both modes.",
+        "DESIGN.md section 2, C08", "No reference values involved; laws only. Guards C02's oracle.", []),
+    "C10": _lt(
+        "exhaustive enumeration of the 2^32 length domain for the classification, and of generator states x all 32 option settings for the lattice law",
+        "DataLengthValidity is compared with the reference on every u32 for the three bucket counts; on every visited generator state (all prefixes, all short inputs, all injected bucket compositions x 4 length classes, injected lengths around every boundary) the 32 real finalizations are checked pairwise along the permissiveness order and against the published classification.",
+        "DESIGN.md section 2, C10", "Lattice law uses only the real outputs; the length law uses the crate's own published classification as the property states.", []),
+    "C13": _lt(
+        "exhaustive enumeration of ordered string pairs over a valid/invalid alphabet vs parse-then-compare",
+        "All ordered pairs of a 34-string alphabet per variant (valid in every case/prefix form with one-field twins; invalid in every way the parser distinguishes) through compare_with / compare; result or (side, error) must equal parse-left, parse-right, compare.",
+        "DESIGN.md section 2, C13", "Oracle uses the crate's own parser and compare (judged by C05/C02).", []),
+    "C14": _lt(
+        "exhaustive enumeration of buffer lengths 0..=N+64 x forms x sentinel fills",
+        "Every buffer length up to N+64 for the three forms, 8 values, 3 position-dependent sentinel patterns: error and untouched buffer below N; exact representation and untouched tail otherwise.",
+        "DESIGN.md section 2, C14", "Sentinel patterns are position dependent, so shifted or over-long writes are visible.", []),
     "C09": {
         "technique": "exhaustive enumeration of the complete 2^32 length domain and all 256 codes on the real encoder, compared with a linear-scan reference",
         "text": "Complete-domain model checking: every u32 length and every code byte is run through the real encoder/decoder and compared with an independent linear scan of a pinned table; generated hashes are checked for every n up to a bound by real feeding and at every table boundary (thorough: every n) by state injection. The length domain is finite, so the result is unconditional for the length-code part.",
